@@ -35,6 +35,7 @@ struct vp_in {
     uint8_t which;
     uint8_t idx;
     int err;
+    uint8_t once; /* the injected sink fault is transient (one-shot) instead of permanent */
 };
 VP_DECLARE_INPUT();
 
@@ -49,6 +50,7 @@ void harness(void)
 #endif
     VP_ASSUME(in.n <= NP);
     VP_ASSUME(in.which <= 3);
+    VP_ASSUME(in.once <= 1);
     VP_ASSUME(c12_is_error(in.err));
 
     uint8_t ref[WC];
@@ -74,6 +76,7 @@ void harness(void)
             VP_ASSUME(in.idx < rl);
             es.cap = in.idx;
             es.err = in.err;
+            es.once = in.once != 0;
         }
         Source psrc = OCTET_SOURCE_INIT(ssrc_get, &ps);
         Sink esink = SINKINIT(&es);
@@ -103,6 +106,7 @@ void harness(void)
             VP_ASSUME(in.idx < in.n);
             os.cap = in.idx;
             os.err = in.err;
+            os.once = in.once != 0;
         }
         Source dsrc = OCTET_SOURCE_INIT(ssrc_get, &ds);
         Sink dsink = SINKINIT(&os);
